@@ -443,7 +443,7 @@ def run(ck):
     ck.notes.append("decode compared on ALL octet strings of length <= %d (%d strings)" % (3 if T else 2, 65793 + n3))
 
     # every header x tails
-    per = 6 if T else 1
+    per = 4 if T else 1
     for a in range(256):
         for c in range(256):
             pt = (a << 8 | c) >> 6 & 15
